@@ -460,7 +460,11 @@ func runC08(c *Ctx) {
 	{
 		fn := p.Fn("adapter", "sessionAwareAdapter.RestoreSession")
 		n := 0
-		for _, b := range fn.Blocks {
+		var blocks []*ssa.BasicBlock
+		for _, f := range append([]*ssa.Function{fn}, transparentCalleesOf(fn)...) {
+			blocks = append(blocks, f.Blocks...)
+		}
+		for _, b := range blocks {
 			for _, in := range b.Instrs {
 				bo, ok := in.(*ssa.BinOp)
 				if !ok || bo.Op != token.ADD || Term(bo.Y) != "1" || !isIntType(bo.Type()) {
@@ -493,10 +497,11 @@ func runC08(c *Ctx) {
 				if !usedAsStart {
 					continue
 				}
-				if _, isPhi := bo.X.(*ssa.Phi); !isPhi {
+				start := resolveParam(bo.X) // the position handed to a private helper is the caller's
+				if _, isPhi := start.(*ssa.Phi); !isPhi {
 					continue // the scan's own i + 1
 				}
-				if ph := bo.X.(*ssa.Phi); len(ph.Edges) == 2 && (ph.Edges[0] == ssa.Value(bo) || ph.Edges[1] == ssa.Value(bo)) {
+				if ph := start.(*ssa.Phi); len(ph.Edges) == 2 && (ph.Edges[0] == ssa.Value(bo) || ph.Edges[1] == ssa.Value(bo)) {
 					continue // the scan's induction variable
 				}
 				n++
@@ -536,7 +541,7 @@ func runC08(c *Ctx) {
 						bad = Term(e) + " (arrives without the test a.packets[" + Term(e) + "].ID == offset)"
 					}
 				}
-				walk(bo.X)
+				walk(start)
 				c.Ob("C08-D9", fmt.Sprintf("adapter.sessionAwareAdapter.RestoreSession/start-is-the-found-offset#%d", n), bo.Pos(), bad == "", "the missed-packet scan can start behind position "+trunc(bad, 120))
 			}
 		}
